@@ -15,17 +15,17 @@ import (
 type wild int
 
 const (
-	wNone       wild = iota
-	wAny             // any body (session ticket, PSK)
-	wSNI             // server_name body for the configured name
-	wPadding         // all-zero, any length
-	wKeyShare        // structured: groups fixed, key data wildcard at group-determined size
-	wGroups          // GREASE entries wildcard
-	wVersions        // GREASE entries wildcard
-	wECHGrease       // structured outer ECH
-	wGreaseExt       // type is any GREASE value, body exact
-	wOmittable       // may be absent (e.g. empty SNI)
-	wQUICTP          // transport parameters, GREASE ids/values wildcard
+	wNone      wild = iota
+	wAny            // any body (session ticket, PSK)
+	wSNI            // server_name body for the configured name
+	wPadding        // all-zero, any length
+	wKeyShare       // structured: groups fixed, key data wildcard at group-determined size
+	wGroups         // GREASE entries wildcard
+	wVersions       // GREASE entries wildcard
+	wECHGrease      // structured outer ECH
+	wGreaseExt      // type is any GREASE value, body exact
+	wOmittable      // may be absent (e.g. empty SNI)
+	wQUICTP         // transport parameters, GREASE ids/values wildcard
 )
 
 type Expect struct {
